@@ -5,6 +5,7 @@ import (
 	"encoding/json"
 	"fmt"
 	"sync"
+	"time"
 
 	"github.com/polynetwork/poly/core/store/overlaydb"
 	"github.com/syndtr/goleveldb/leveldb/comparer"
@@ -18,6 +19,7 @@ var keySets = map[int][][]byte{
 	3: {[]byte("a"), []byte("ab"), []byte("b")},
 	4: {[]byte(""), []byte("a"), []byte("ab"), []byte("b")},
 	5: {[]byte(""), []byte("a"), []byte("ab"), []byte("b"), []byte("b\x00")},
+	7: {[]byte(""), []byte("a"), []byte("ab"), []byte("abc"), []byte("b"), []byte("b\x00"), []byte("c")},
 }
 
 type hop struct {
@@ -227,8 +229,15 @@ func memdbEdges(k int) {
 	keys := keySets[k]
 	var mu sync.Mutex
 	mismatch := 0
+	hangs := 0
 	distinct := map[string]bool{}
 	vio.ParMap(len(lines), 16, func(i int) {
+		mu.Lock()
+		stop := hangs >= 8 // every hang leaks a spinning goroutine: stop replaying once the verdict is clear
+		mu.Unlock()
+		if stop {
+			return
+		}
 		var e medge
 		if err := json.Unmarshal(lines[i], &e); err != nil {
 			vio.Fatal("bad edge: %v", err)
@@ -236,8 +245,14 @@ func memdbEdges(k int) {
 		var got interface{}
 		var m2 []string
 		var bad string
-		pan := vio.Safe(func() {
+		soiled := i%2 == 1
+		pan := withDeadline(20*time.Second, func() {
 			mm := &memModel{db: overlaydb.NewMemDB(64, 8), keys: keys}
+			if soiled {
+				// "reset empties the buffer": a buffer that held other content and was reset must behave like a fresh one
+				soil(mm.db, uint64(i))
+				mm.db.Reset()
+			}
 			for _, h := range e.H {
 				mm.apply(h.Op, h.A, h.V)
 			}
@@ -260,15 +275,18 @@ func memdbEdges(k int) {
 		if nontrivial {
 			distinct[e.Op+fmt.Sprint(e.A)+norm(e.M2)+exp] = true
 		}
+		if len(pan) > 4 && pan[:4] == "hang" {
+			hangs++
+		}
 		if pan != "" || bad != "" || g != exp || norm(m2) != norm(e.M2) {
 			mismatch++
 			if mismatch <= 20 {
 				vio.Emit(map[string]interface{}{"mismatch": true, "edge": json.RawMessage(lines[i]), "got": got, "gotState": m2,
-					"panic": pan, "inconsistent": bad})
+					"panic": pan, "inconsistent": bad, "soiled": soiled})
 			}
 		}
 	})
-	vio.Emit(map[string]interface{}{"summary": true, "edges": len(lines), "mismatches": mismatch, "distinct": len(distinct)})
+	vio.Emit(map[string]interface{}{"summary": true, "edges": len(lines), "mismatches": mismatch, "distinct": len(distinct), "hangs": hangs})
 }
 
 var _ = comparer.DefaultComparer
@@ -276,11 +294,14 @@ var _ = comparer.DefaultComparer
 // memdbRecord: random histories on one real MemDB (5 keys), one NDJSON event per call logged at return.
 func memdbRecord(n, length int) {
 	rng := vio.NewRNG(vio.Seed())
-	keys := keySets[5]
+	keys := keySets[7]
 	K := len(keys)
 	vals := []string{"x", "yz", "T"}
 	mm := &memModel{db: overlaydb.NewMemDB(64, 8), keys: keys}
 	for t := 0; t < n; t++ {
+		if t%2 == 1 {
+			soil(mm.db, rng.U64()) // content outside the model's alphabet, wiped by the reset that starts the trace
+		}
 		obs := mm.apply("reset", nil, "")
 		vio.Emit(map[string]interface{}{"op": "reset", "a": []int{}, "v": "", "obs": obs})
 		open := false
@@ -312,11 +333,38 @@ func memdbRecord(n, length int) {
 				}
 			}
 			var o interface{}
-			if p := vio.Safe(func() { o = mm.apply(op, a, v) }); p != "" {
+			if p := withDeadline(20*time.Second, func() { o = mm.apply(op, a, v) }); p != "" {
 				vio.Emit(map[string]interface{}{"op": "PANIC", "a": a, "v": v, "obs": map[string]string{"panic": p, "in": op}})
 				return
 			}
 			vio.Emit(map[string]interface{}{"op": op, "a": a, "v": v, "obs": o})
 		}
+	}
+}
+
+// soil fills a MemDB with a pseudo-random number (1..40) of keys outside the model's alphabet, some deleted again.
+func soil(db *overlaydb.MemDB, seed uint64) {
+	r := vio.NewRNG(seed)
+	n := 1 + r.Intn(40)
+	for j := 0; j < n; j++ {
+		k := []byte(fmt.Sprintf("soil-%02d-%x", r.Intn(60), r.Intn(4)))
+		if r.Intn(4) == 0 {
+			db.Delete(k)
+		} else {
+			db.Put(k, r.Bytes(1+r.Intn(6)))
+		}
+	}
+}
+
+// withDeadline runs f under vio.Safe in a goroutine; a call that does not return in time is reported like a panic
+// ("hang"): an operation of the write buffer that never answers does not answer like a map.
+func withDeadline(d time.Duration, f func()) string {
+	done := make(chan string, 1)
+	go func() { done <- vio.Safe(f) }()
+	select {
+	case p := <-done:
+		return p
+	case <-time.After(d):
+		return fmt.Sprintf("hang: operation did not return within %v", d)
 	}
 }
